@@ -92,7 +92,7 @@ def _internal(o):
     return [] if isinstance(o, dict) else [o] + _internal(o[0]) + _internal(o[1])
 
 
-def rand_case(rng, max_o, max_s, max_f, chain=0.25, clade=0.3):
+def rand_case(rng, max_o, max_s, max_f, chain=0.25, clade=0.3, band=0.0):
     S = R.rand_shape(rng, rng.randint(1, max_s))
     nf = rng.randint(1, max_f)
     fams = sorted(rng.sample(range(1, 8), nf))
@@ -114,6 +114,14 @@ def rand_case(rng, max_o, max_s, max_f, chain=0.25, clade=0.3):
             c2 = {"spe": 0, "dup": rng.randint(1, 4), "hgt": rng.randint(0, 2), "floss": rng.randint(1, 4), "sloss": rng.randint(1, 4)}
             if R.coherent(c2):
                 c = c2
+    if rng.random() < band:
+        # the band spe + sloss <= dup + 2 floss < spe + 2 sloss: inside the region the unordered theorems need,
+        # outside the one the ordered solver needs
+        for _ in range(200):
+            c2 = R.rand_costs(rng, coherent_only=False, hi=4)
+            if R.ucoherent(c2) and not R.coherent(c2):
+                c = c2
+                break
     case = {"S": S, "O": O, "costs": c}
     if rng.random() < 0.4:    # family names of different lengths / cases (the model knows families as numbers only)
         case["fnames"] = rng.choice([1, 2])
@@ -215,7 +223,7 @@ def gen(ctx):
                                 "syntenies": {"g0": ["w"], "g1": ["x", "z"], "g2": ["w"], "g3": ["z"], "g4": ["y"], "g5": ["x"]},
                                 "costs": {"spe": 0, "dup": 1, "hgt": 2, "floss": 1, "sloss": 2}})]
     for _ in range(4000 if quick else 30000):
-        cases.append(rand_case(rng, 5 if quick else 6, 3 if quick else 4, 4))
+        cases.append(rand_case(rng, 5 if quick else 6, 3 if quick else 4, 4, band=0.15))
     return cases
 
 
@@ -258,7 +266,7 @@ LEVEL_NOTE = ("Trusted: Coq kernel; hand-written model (correspondence = differe
 
 
 def known_signature(f, kf):
-    return kf["id"] == "F-COHERENCE" and not R.coherent(f.case["costs"])
+    return kf["id"] == "F-COHERENCE" and not R.ucoherent(f.case["costs"])
 
 
 def replay_known(ctx, kf):
